@@ -9,8 +9,9 @@ configuration record and every action sequence the LTS accepts from the initial 
 time, rates, weights and stamps are exact rationals.  The correspondence check replays the real `WFQ` / `VC`
 through this LTS bit for bit.
 
-`held' s` = the packets the scheduler accounts for (waiting, in transmission, or transmitted but not yet booked out
-by the loop); the scheduler *is empty* when `held' s = []`.
+`held s` = the packets waiting or in transmission (what `size()` / `total_packets` count): the scheduler *is empty* when
+`held s = []`.  `held' s` = `held s` plus the packet whose transmission has ended in this instant but whose end the
+loop has not processed yet (its class is still in `active_set` until then).
 -/
 
 namespace C14
@@ -19,18 +20,23 @@ open Stamp
 /-! ### stamps -/
 
 /-- **WFQ stamps every arrival** — also the first of a busy period.  For every reachable state and every accepted
-`put(p)`, with `k` the class of `p` and `w` its weight: the new virtual time `V'` is 0 if the scheduler was empty
-(and then the finish time `Fk` the stamp builds on is 0 too), else `V + Δt / Σ_{active} w`; the packet is queued under
-the key `(max(Fk, V') + 8·size/(rate·w), now)`, that stamp becomes the finish time of class `k`, and `last_time = now`.
-The active set over which the weights are summed is exactly the set of classes with a packet in the scheduler.
-(As in the code, "the scheduler was empty" refers to `held'`: a packet whose transmission has ended but which the loop
-has not booked out yet still counts; see known finding `wfq-empty-race` for that same-instant window.) -/
+`put(p)`, with `k` the class of `p` and `w` its weight:
+* if the scheduler is empty — no packet waiting or in transmission, `held s = []` — a new busy period starts: the new
+  virtual time `V'` is 0, the finish time `Fk` the stamp builds on is 0 and the finish time of every other weighted
+  class becomes 0 (this also holds in the instant in which the last transmission has just ended and the loop has not
+  yet resumed);
+* otherwise `V' = V + Δt / Σ_{active} w` and `Fk` is the finish time of the previous packet of class `k`;
+the packet is queued under the key `(max(Fk, V') + 8·size/(rate·w), now)`, that stamp becomes the finish time of class
+`k`, and `last_time = now`.  The active set over which the weights are summed is exactly the set of classes that had a
+packet in the scheduler during the interval `Δt` that ends now: the classes of the packets waiting, in transmission, or
+transmitted to the end in this very instant and not yet booked out (`held'`). -/
 theorem wfq_stamp (c : WfqCfg ℚ) (t0 : ℚ) (as : List (StAct ℚ)) (s : WFQ.WState) (ins outs : List SPkt)
     (h : runActs (WFQ.sched c) (WFQ.start t0) as = .ok (s, ins, outs)) (p : SPkt) (s' : WFQ.WState) (o : StOut)
     (hput : step (WFQ.sched c) s (.put p) = .ok (s', o)) :
     ∃ k w Fk V', WFQ.clsOf c p.flow = some k ∧ lookup c.weights k = some w ∧
-      (held' s = [] → V' = 0 ∧ Fk = 0) ∧
-      (held' s ≠ [] → V' = s.sch.vtime + (s.now - s.sch.lastTime) / WFQ.wSum c.weights s.sch.active ∧
+      (held s = [] → V' = 0 ∧ Fk = 0 ∧
+        ∀ k' w', k' ≠ k → lookup c.weights k' = some w' → lookup s'.sch.finish k' = some 0) ∧
+      (held s ≠ [] → V' = s.sch.vtime + (s.now - s.sch.lastTime) / WFQ.wSum c.weights s.sch.active ∧
         lookup s.sch.finish k = some Fk) ∧
       s'.sch.vtime = V' ∧
       lookup s'.sch.finish k = some (max Fk V' + 8 * (p.size : ℚ) / (c.rate * w)) ∧
@@ -41,19 +47,23 @@ theorem wfq_stamp (c : WfqCfg ℚ) (t0 : ℚ) (as : List (StAct ℚ)) (s : WFQ.W
   have ht := step_trans _ _ _ _ _ hput
   cases ht with
   | put _ sch stamp h1 =>
-    obtain ⟨k, st1, f, w, hk, ha, hf, hwt, hz, rfl, rfl⟩ := WFQ.put_spec c _ _ _ _ _ h1
+    obtain ⟨k, st1, f, w, hk, ha, hf, hwt, hz, rfl, rfl⟩ := WFQ.put_spec c _ _ _ _ _ _ h1
     refine ⟨k, w, f, st1.vtime, hk, hwt, ?_, ?_, rfl, ?_, ?_, rfl, fun k' => hw.active_iff k'⟩
     · intro he
-      have hnil := hw.active_nil_iff.mpr he
-      rcases WFQ.advance_spec c _ _ _ ha with ⟨_, rfl⟩ | ⟨hne, _⟩
-      · refine ⟨by simp [WFQ.resetVtime, zero_eq_q], ?_⟩
-        simp only [WFQ.resetVtime, WFQ.lookup_zeroFinish, hwt, Option.isSome_some, if_true, Option.some.injEq] at hf
-        exact hf.symm
-      · exact absurd hnil hne
+      have h0 := hw.tot.zero_iff.mpr he
+      rcases WFQ.advance_spec c _ _ _ _ ha with ⟨_, rfl⟩ | ⟨hne, _⟩
+      · refine ⟨by simp [WFQ.resetVtime, zero_eq_q], ?_, ?_⟩
+        · simp only [WFQ.resetVtime, WFQ.lookup_zeroFinish, hwt, Option.isSome_some, if_true, Option.some.injEq] at hf
+          exact hf.symm
+        · intro k' w' hkk hw'
+          show lookup (setKey (WFQ.zeroFinish s.sch.finish c.weights) k _) k' = some 0
+          rw [lookup_setKey, if_neg hkk]
+          simp [WFQ.lookup_zeroFinish, hw']
+      · exact absurd h0 hne
     · intro hne
-      have hact : s.sch.active ≠ [] := fun hc => hne (hw.active_nil_iff.mp hc)
-      rcases WFQ.advance_spec c _ _ _ ha with ⟨hnil, _⟩ | ⟨_, _, _, rfl⟩
-      · exact absurd hnil hact
+      have h0 : qcTotal s.queueCount ≠ 0 := fun hc => hne (hw.tot.zero_iff.mp hc)
+      rcases WFQ.advance_spec c _ _ _ _ ha with ⟨hz0, _⟩ | ⟨_, _, _, rfl⟩
+      · exact absurd hz0 h0
       · exact ⟨rfl, hf⟩
     · show lookup (setKey st1.finish k _) k = _
       rw [lookup_setKey, if_pos rfl, WFQ.stampOf_eq]
@@ -105,8 +115,9 @@ theorem wfq_service_end (c : WfqCfg ℚ) (t0 : ℚ) (as : List (StAct ℚ)) (s :
   | doneBlock p sch h1 h2 h3 => exact main p sch h2 rfl
   | doneServe p sch id it rest h1 h2 h3 => exact main p sch h2 rfl
 
-/-- **Virtual time and all finish times are 0 whenever the scheduler is empty** — initially and after the
-departure that empties it (the busy period is over, the next arrival starts from 0). -/
+/-- **Virtual time and all finish times are 0 whenever the scheduler is empty** and the loop has processed the end of
+the last transmission (`held' s = []`): initially and after the service end that empties it.  (An arrival that comes
+even earlier — in the instant of that last departure, before the loop has resumed — starts from 0 as well: `wfq_stamp`.) -/
 theorem wfq_vtime_reset (c : WfqCfg ℚ) (t0 : ℚ) (as : List (StAct ℚ)) (s : WFQ.WState) (ins outs : List SPkt)
     (h : runActs (WFQ.sched c) (WFQ.start t0) as = .ok (s, ins, outs)) (hempty : held' s = []) :
     s.sch.vtime = 0 ∧ (∀ k F, lookup s.sch.finish k = some F → F = 0) ∧ s.sch.active = [] := by
@@ -126,7 +137,7 @@ theorem vc_stamp (c : VcCfg ℚ) (s s' : VC.VState) (p : SPkt) (o : StOut)
   have ht := step_trans _ _ _ _ _ hput
   cases ht with
   | put _ sch stamp h1 =>
-    obtain ⟨k, v, a, vt, hk, hv, ha, hvt, rfl, rfl⟩ := VC.put_spec c _ _ _ _ _ h1
+    obtain ⟨k, v, a, vt, hk, hv, ha, hvt, rfl, rfl⟩ := VC.put_spec c _ _ _ (qcTotal s.queueCount) _ _ h1
     refine ⟨k, a, vt, hk, ha, hvt, ?_, ?_, ?_⟩
     · show lookup (setKey s.sch.aux k _) k = _
       rw [lookup_setKey, if_pos rfl, VC.auxOf_eq]
@@ -202,13 +213,13 @@ theorem tie_choice_accepted {σ : Type} (d : Sched ℚ σ) (s : StState ℚ σ) 
 
 /-! ### fairness with a static backlog -/
 
-/-- **Stamps are the cumulative normalised service of the class.**  Setting: the scheduler is empty in a reachable
-state `s1`; the packets `ps` (positive sizes ≤ `L`) arrive at that one instant; then any admissible continuation `as2`
+/-- **Stamps are the cumulative normalised service of the class.**  Setting: the scheduler is empty (nothing waiting or
+in transmission) in a reachable state `s1`; the packets `ps` (positive sizes ≤ `L`) arrive at that one instant; then any admissible continuation `as2`
 without further arrivals.  Then for every class `k` that still has a packet waiting, the oldest such packet `y`
 satisfies `stamp(y) · rate · w_k = (bits of class k taken out of the store so far) + 8·size(y)`, and nothing taken
 so far exceeds any waiting stamp: `(bits of any class k' taken so far) ≤ stamp(y) · rate · w_k'`. -/
 theorem static_backlog_stamps (c : WfqCfg ℚ) (hp : WFQ.Pos c) (t0 : ℚ) (as1 : List (StAct ℚ)) (s1 : WFQ.WState)
-    (i1 o1 : List SPkt) (h1 : runActs (WFQ.sched c) (WFQ.start t0) as1 = .ok (s1, i1, o1)) (hempty : held' s1 = [])
+    (i1 o1 : List SPkt) (h1 : runActs (WFQ.sched c) (WFQ.start t0) as1 = .ok (s1, i1, o1)) (hempty : held s1 = [])
     (L : Nat) (ps : List SPkt) (hps : ∀ p ∈ ps, 0 < p.size ∧ p.size ≤ L) (as2 : List (StAct ℚ)) (hnp : WFQ.NoPut as2)
     (s : WFQ.WState) (ins outs : List SPkt)
     (h2 : runActs (WFQ.sched c) s1 (ps.map .put ++ as2) = .ok (s, ins, outs))
@@ -225,7 +236,7 @@ theorem static_backlog_stamps (c : WfqCfg ℚ) (hp : WFQ.Pos c) (t0 : ℚ) (as1 
 `i`, `j` that still have a packet waiting, the bits transmitted so far (`outs` = the departed packets), normalised by
 weight, differ by at most one maximum-size packet each: `|S_i/w_i − S_j/w_j| ≤ 8L/w_i + 8L/w_j`. -/
 theorem static_backlog_fair (c : WfqCfg ℚ) (hp : WFQ.Pos c) (t0 : ℚ) (as1 : List (StAct ℚ)) (s1 : WFQ.WState)
-    (i1 o1 : List SPkt) (h1 : runActs (WFQ.sched c) (WFQ.start t0) as1 = .ok (s1, i1, o1)) (hempty : held' s1 = [])
+    (i1 o1 : List SPkt) (h1 : runActs (WFQ.sched c) (WFQ.start t0) as1 = .ok (s1, i1, o1)) (hempty : held s1 = [])
     (L : Nat) (ps : List SPkt) (hps : ∀ p ∈ ps, 0 < p.size ∧ p.size ≤ L) (as2 : List (StAct ℚ)) (hnp : WFQ.NoPut as2)
     (s : WFQ.WState) (ins outs : List SPkt)
     (h2 : runActs (WFQ.sched c) s1 (ps.map .put ++ as2) = .ok (s, ins, outs))
@@ -245,7 +256,7 @@ theorem static_backlog_fair (c : WfqCfg ℚ) (hp : WFQ.Pos c) (t0 : ℚ) (as1 : 
 /-- **Static backlog fairness, service started**: the same bound when the packet taken for transmission (handed
 to the loop or in transmission) is counted as served — i.e. at the scheduler's decision points. -/
 theorem static_backlog_fair_started (c : WfqCfg ℚ) (hp : WFQ.Pos c) (t0 : ℚ) (as1 : List (StAct ℚ)) (s1 : WFQ.WState)
-    (i1 o1 : List SPkt) (h1 : runActs (WFQ.sched c) (WFQ.start t0) as1 = .ok (s1, i1, o1)) (hempty : held' s1 = [])
+    (i1 o1 : List SPkt) (h1 : runActs (WFQ.sched c) (WFQ.start t0) as1 = .ok (s1, i1, o1)) (hempty : held s1 = [])
     (L : Nat) (ps : List SPkt) (hps : ∀ p ∈ ps, 0 < p.size ∧ p.size ≤ L) (as2 : List (StAct ℚ)) (hnp : WFQ.NoPut as2)
     (s : WFQ.WState) (ins outs : List SPkt)
     (h2 : runActs (WFQ.sched c) s1 (ps.map .put ++ as2) = .ok (s, ins, outs))
@@ -299,6 +310,17 @@ example : wfqSummary (runActs (WFQ.sched cfg) (WFQ.start 0)
       .put ⟨2, 0, 1⟩]) = some ([1], [(2, 1)], 0) := by
   decide +kernel
 
+/-- an arrival in the very instant the last transmission ended, *before* the loop has resumed (`sendDone` comes
+later): nothing is waiting or in transmission, so packet 2 (class 1, 2 bytes) is stamped from 0: `0 + 8·2/(8·2) = 1`, not
+from the old virtual time 1; after the loop's bookkeeping virtual time is still 0 -/
+example : wfqSummary (runActs (WFQ.sched cfg) (WFQ.start 0)
+    [.init none, .put ⟨1, 0, 1⟩, .handoff 1, .resume, .sendInit, .tick 1, .sendFire, .put ⟨2, 1, 2⟩]) =
+      some ([1], [(2, 1)], 0) ∧
+    wfqSummary (runActs (WFQ.sched cfg) (WFQ.start 0)
+    [.init none, .put ⟨1, 0, 1⟩, .handoff 1, .resume, .sendInit, .tick 1, .sendFire, .put ⟨2, 1, 2⟩, .sendDone (some 2)]) =
+      some ([1], [], 0) := by
+  decide +kernel
+
 /-- the hypotheses of the static-backlog theorems are satisfiable: `cfg` is positive … -/
 example : WFQ.Pos cfg := by
   refine ⟨by decide +kernel, ?_⟩
@@ -324,7 +346,7 @@ t = 0; a continuation without arrivals (`NoPut`) is accepted; afterwards classes
 example :
     (match runActs (WFQ.sched cfg) (WFQ.start 0) [.init none] with
      | .ok (s1, _, _) =>
-       (held' s1,
+       (held s1,
         match runActs (WFQ.sched cfg) s1
             ([⟨1, 0, 1⟩, ⟨2, 1, 2⟩, ⟨3, 2, 1⟩, ⟨4, 1, 2⟩].map .put ++ [.handoff 2, .resume, .sendInit, .tick 1, .sample true]) with
         | .ok (s, _, outs) => some (s.items.map (fun it => WFQ.clsOf cfg it.pkt.flow), outs, inHand s)
